@@ -520,7 +520,7 @@ func c16DiffCaseRun(r *h.Result, c c16DiffCase, ops, impl *[]string, cases *[]an
 	c16OracleDiff(r, c, fb)
 }
 
-func c16DiffStream(r *h.Result, rng *h.Rng, n int, ops, impl *[]string, cases *[]any) {
+func c16DiffStream(r *h.Result, rng *h.Rng, n int, withCorpus bool, ops, impl *[]string, cases *[]any) {
 	corpus := []c16DiffCase{
 		{},
 		{Left: c16Side{Rows: []c16Flat{{0, 5, 77, 1, 1}}, Fns: [][2]string{{"5", "a"}}}},
@@ -528,8 +528,10 @@ func c16DiffStream(r *h.Result, rng *h.Rng, n int, ops, impl *[]string, cases *[
 		{Left: c16Side{Rows: []c16Flat{{0, 5, 77, 1, 4}, {77, 6, 88, 3, 3}}, Fns: [][2]string{{"5", "a"}, {"6", "b"}}},
 			Right: c16Side{Rows: []c16Flat{{0, 5, 77, 2, 9}, {77, 7, 99, 7, 7}}, Fns: [][2]string{{"7", "b"}, {"5", "total"}}}},
 	}
-	for _, c := range corpus {
-		c16DiffCaseRun(r, c, ops, impl, cases)
+	if withCorpus {
+		for _, c := range corpus {
+			c16DiffCaseRun(r, c, ops, impl, cases)
+		}
 	}
 	for i := 0; i < n; i++ {
 		c := c16GenDiff(rng, i%9 == 7, i%9 == 8)
